@@ -9,6 +9,11 @@ use std::time::Instant;
 
 pub const VERIF_DIR: &str = "/verif";
 
+/// Where evidence and replay files go (default /verif; scratch runs set HQMC_VERIF_DIR).
+pub fn out_dir() -> PathBuf {
+    std::env::var("HQMC_VERIF_DIR").map(PathBuf::from).unwrap_or_else(|_| PathBuf::from(VERIF_DIR))
+}
+
 pub fn hash128<T: Hash + ?Sized>(value: &T) -> u128 {
     let mut h1 = std::collections::hash_map::DefaultHasher::new();
     h1.write_u64(0x9e37_79b9_7f4a_7c15);
@@ -144,7 +149,7 @@ impl Report {
         let mut n_known = 0;
         let mut n_new = 0;
         let mut known_seen: Vec<String> = Vec::new();
-        let replay_dir = Path::new(VERIF_DIR).join("replays").join(&self.property);
+        let replay_dir = out_dir().join("replays").join(&self.property);
         let violations = std::mem::take(&mut self.violations);
         for v in &violations {
             let sig = v.signature();
@@ -210,7 +215,7 @@ impl Report {
             "wall_s": wall,
             "violations": n_new,
         });
-        let dir = Path::new(VERIF_DIR).join("evidence");
+        let dir = out_dir().join("evidence");
         let _ = std::fs::create_dir_all(&dir);
         let path = dir.join(format!("{}.json", self.property));
         if let Err(e) = std::fs::write(&path, serde_json::to_string_pretty(&evidence).unwrap()) {
